@@ -117,7 +117,9 @@ pub fn run_items(prop: &str, items: Vec<BItem>, rep: &Report, opts: BOpts) -> Re
                 for (k, (exp, got, n)) in by_kind {
                     rep.outputs.add_of(&("rf", &k));
                     let mut tags = it.tags.clone();
-                    tags.push(format!("kind={}", k));
+                    // flavour the assertion is about: the label up to the first ':' / '=' (differential labels)
+                    let flavour = k.split(|c| c == ':' || c == '=').next().unwrap_or(&k).trim().to_string();
+                    tags.push(format!("kind={}", flavour));
                     let mut f = mk("wrong-value", format!("{}: {} assertion(s) failed", k, n), tags);
                     f.expected = exp;
                     f.observed = got;
